@@ -61,7 +61,7 @@ def _ends_in_comment(ln):
     return False
 
 
-def eol_comment(text, g=1, p=0):
+def eol_comment(text, g=1, p=0, tight=False):
     toks = vlex.lex(text)
     if _frozen_file(toks):
         return None
@@ -71,7 +71,7 @@ def eol_comment(text, g=1, p=0):
     for ln in lines:
         if _has_code(ln) and not _ends_in_comment(ln):
             if n % g == p:
-                ln = ln + [("ws", " "), ("cmt", "-- vc%d" % n)]
+                ln = ln + ([] if tight else [("ws", " ")]) + [("cmt", ("--vt%d" if tight else "-- vc%d") % n)]
             n += 1
         out.append(ln)
     return _emit(out, trailing) if n else None
@@ -211,6 +211,7 @@ def break_comment(text, g=3, p=0):
 
 
 RECIPES = {
+    "eolt1": lambda s: eol_comment(s, 1, 0, tight=True),      # the comment directly abuts the code:  std_logic);--c
     "breakcmt3a": lambda s: break_comment(s, 3, 0),
     "breakcmt3b": lambda s: break_comment(s, 3, 1),
     "breakcmt3c": lambda s: break_comment(s, 3, 2),
